@@ -89,6 +89,17 @@ theorem finishReply_fb (R : RespTab) (c : Conn) (r : Nat) : FB r R.tab (finishRe
 theorem FB.pre {r : Nat} {T0 T1 : Nat → Option Resp} {e0 e : List Ev} (h0 : frc r e0 = 0) (h : FB r T0 T1 e) : FB r T0 T1 (e0 ++ e) := by
   unfold FB at *; simp; omega
 
+theorem runReply_fb (R1 : RespTab) (c1 : Conn) (r0 : Nat) (cl : Bool) (r : Nat) :
+    FB r R1.tab (runReply R1 c1 r0 cl).1.tab (runReply R1 c1 r0 cl).2.2.2 := by
+  unfold runReply
+  split
+  · exact closeConn_fb R1 _ r
+  · split
+    · exact FB.pre (by simp) (closeConn_fb R1 _ r)
+    · split
+      · exact FB.refl r _
+      · exact finishReply_fb R1 _ r
+
 theorem doReply_fb (cfg : Cfg) (R : RespTab) (c : Conn) (r0 : Nat) (cl : Bool) (r : Nat) :
     FB r R.tab (doReply cfg R c r0 cl).1.tab (doReply cfg R c r0 cl).2.2.2 := by
   unfold doReply
@@ -102,13 +113,44 @@ theorem doReply_fb (cfg : Cfg) (R : RespTab) (c : Conn) (r0 : Nat) (cl : Bool) (
         have hp := acquire_phi R R1 r0 r hacq
         have lift : ∀ {T e}, FB r R1.tab T e → FB r R.tab T e := by
           intro T e h; unfold FB at *; rw [← hp]; exact h
-        split
-        · exact lift (FB.pre (by simp) (closeConn_fb R1 _ r))
-        · split
-          · exact lift (FB.pre (by simp) (closeConn_fb R1 _ r))
-          · split
-            · exact lift (FB.nofree (by simp))
-            · exact lift (FB.pre (by simp) (finishReply_fb R1 _ r))
+        exact lift (FB.pre (by simp) (runReply_fb R1 _ r0 cl r))
+
+theorem interimOne_fb (R : RespTab) (c : Conn) (r0 r : Nat) :
+    FB r R.tab (interimOne R c r0).1.tab (interimOne R c r0).2.2 := by
+  unfold interimOne
+  split
+  · exact FB.nofree (by simp)
+  · split
+    · exact FB.nofree (by simp)
+    · rename_i R1 hacq
+      have hp := acquire_phi R R1 r0 r hacq
+      have lift : ∀ {T e}, FB r R1.tab T e → FB r R.tab T e := by
+        intro T e h; unfold FB at *; rw [← hp]; exact h
+      exact lift (FB.pre (by simp) (release_fb R1 r0 r))
+
+theorem interims_fb (c : Conn) (r : Nat) (l : List Nat) : ∀ (R : RespTab),
+    FB r R.tab (interims R c l).1.tab (interims R c l).2.2 := by
+  induction l with
+  | nil => intro R; exact FB.refl r _
+  | cons r0 rest ih =>
+    intro R
+    unfold interims
+    have h1 := interimOne_fb R c r0 r
+    generalize interimOne R c r0 = q at h1 ⊢
+    obtain ⟨R1, ok, e⟩ := q
+    cases ok with
+    | false => exact h1
+    | true => exact h1.trans (ih R1)
+
+theorem replyPre_fb (cfg : Cfg) (R : RespTab) (c : Conn) (r0 : Nat) (cl : Bool) (pre : List Nat) (r : Nat) :
+    FB r R.tab (replyPre cfg R c r0 cl pre).1.tab (replyPre cfg R c r0 cl pre).2.2.2 := by
+  unfold replyPre
+  have h1 := interims_fb c r pre R
+  generalize interims R c pre = q at h1 ⊢
+  obtain ⟨R1, ok, e⟩ := q
+  cases ok with
+  | false => exact h1
+  | true => exact h1.trans (doReply_fb cfg R1 c r0 _ r)
 
 theorem handleReq_fb (cfg : Cfg) (R : RespTab) (c : Conn) (r : Nat) :
     FB r R.tab (handleReq cfg R c).1.tab (handleReq cfg R c).2.2.2 := by
@@ -116,7 +158,11 @@ theorem handleReq_fb (cfg : Cfg) (R : RespTab) (c : Conn) (r : Nat) :
   split
   · exact FB.refl r _
   · split <;> exact FB.nofree (by simp)
-  · exact doReply_fb cfg R c _ _ r
+  · exact replyPre_fb cfg R c _ _ _ r
+  · exact FB.refl r _
+  · split
+    · exact runReply_fb R _ _ true r
+    · exact FB.refl r _
 
 theorem afterReq_fb (R : RespTab) (c : Conn) (r : Nat) : FB r R.tab (afterReq R c).1.tab (afterReq R c).2.2.2 := by
   unfold afterReq
@@ -419,6 +465,19 @@ theorem step_sfb (r : Nat) (s : St) (o : Op) : SFB r s (step s o).1 (step s o).2
         unfold FB at *
         simp only at h ⊢
         rw [← hp]; exact h
+    | extQueue c r0 =>
+      simp only
+      unfold extQueue
+      split
+      · exact FB.nofree (by simp)
+      · split
+        · exact FB.nofree (by simp)
+        · rename_i R1 hacq
+          have hp := acquire_phi { tab := s.resps, fault := none } R1 r0 r hacq
+          unfold SFB FB
+          simp only at hp ⊢
+          rw [hp]; simp
+    | acceptFail => exact FB.refl r _
 
 theorem run_sfb (r : Nat) (ops : List Op) : ∀ (s : St), SFB r s (run s ops).1 (run s ops).2 := by
   induction ops with
